@@ -17,3 +17,5 @@ run C01-r5-1 blob.go 's/\t\t\tif errCancel := bc\.Cancel\(\); errCancel != nil \
 run C01-r5-1 blob.go 's/\t\tcase blobCommitVerify:\n/\t\tcase blobCommitVerify:\n\t\t\tw.WriteHeader(http.StatusBadRequest)\n\t\t\treturn\n\t\tcase blobCommitLocation + 7:\n/' TS-CANCEL
 run C07-r5-2 referrer.go 's/\t\/\/ concurrent updates to the same response would otherwise lose entries\n\ts\.referrerMu\.Lock\(\)\n\tdefer s\.referrerMu\.Unlock\(\)\n//' LK-RMW
 run C14-r5-3 internal/store/mem.go 's/\t\t\tmr\.blobs\[d\] = nil\n\t\t\}\n\t\}\n\tmr\.timeMod = time\.Now\(\)/\t\t\tmr.blobs[d] = nil\n\t\t\t_ = os.Remove(filepath.Join(mr.path, blobsDir, d.Algorithm().String(), d.Encoded()))\n\t\t}\n\t}\n\tmr.timeMod = time.Now()/' FS-WHO
+run C07-1 referrer.go 's/referrerStore\(repo, subject, refResp\)/referrerStore(repo, subject, index)/' TS-REFRESP-FLOW
+run C08-r3-2 internal/store/store.go 's/if conf.Storage.GC.GracePeriod > 0 \{\n\t\topts.Age/if conf.Storage.GC.Frequency > 0 {\n\t\topts.Age/' TS-OPT-GUARD
